@@ -245,3 +245,155 @@ def run_config(chk, facts):
                pos_ok and len_ok and sum_ok, key=f"{bd.path}|record-args", file=bd.file, line=t.line, fn=bd.path,
                detail="a directory record whose offset is not the running position (or whose length is not the data length, or whose "
                       "checksum is not that of the data) does not return the table that was put in")
+
+    # ---- C06-f -----------------------------------------------------------------------------------
+    chk.rule("C06-f", "T-ALL: in the table loop of build() the checksum returned by checksum_and_padding(data) is pushed onto the "
+                      "vector that is folded into the whole-file checksum on every trip (the push dominates the loop's back edges); "
+                      "the directory's own checksum is pushed once after the loop; the fold runs over that vector")
+    from ..loops import natural_loops
+    cps = [(bb, t) for bb, t in bd.calls() if t.callee.endswith("font_builder::checksum_and_padding")]
+    chk.anchor("C06-f", "checksum_and_padding call in build()", cps)
+    loops = natural_loops(bd)
+    n_f = 0
+    for cbb, ct in cps:
+        inner = [l for l in loops if cbb in l[2]]
+        if not inner:
+            chk.ob("C06-f", "checksum_and_padding is called inside the table loop", False, key=f"{bd.path}|sum-loop",
+                   file=bd.file, line=ct.line, fn=bd.path)
+            continue
+        h, us, body = min(inner, key=lambda l: len(l[2]))
+        pushes = []
+        for bb, t in bd.calls():
+            if bb in body and t.callee.endswith("Vec::<T, A>::push") and len(t.args) >= 2:
+                e = strip_casts(expr_of(bd, t.args[1]))
+                # the pushed value is (a projection of) the call's result itself, not something built from it
+                while e[0] == "proj":
+                    e = e[1]
+                if e[0] == "call" and e[1].endswith("font_builder::checksum_and_padding"):
+                    pushes.append((bb, t))
+        ok = any(all(bd.dominates(pb, u) for u in us) for pb, _ in pushes)
+        n_f += 1
+        chk.ob("C06-f", f"build(): the table checksum (line {ct.line}) is pushed on every trip of the table loop "
+                        f"({len(pushes)} push site(s))", ok, key=f"{bd.path}|sum-every-table", file=bd.file,
+               line=(pushes[0][1].line if pushes else ct.line), fn=bd.path,
+               detail="the push of a table's checksum onto the whole-file accumulator does not dominate the loop's back edge: some "
+                      "table is left out of the sum, so the file does not add up to 0xB1B0AFBA")
+        # the vector receiving them is the one folded
+        if pushes:
+            vec_root = bd.root_local(pushes[0][1].args[0])
+            folds = [(bb, t) for bb, t in bd.calls() if t.callee.endswith("::fold")]
+            def folded_root(t):
+                # fold(into_iter(v), ..) / fold(iter(&v), ..): the local the iterator was made from
+                l = bd.root_local(t.args[0]) if t.args and op_place(t.args[0]) is not None else None
+                for _ in range(4):
+                    if l is None:
+                        return None
+                    if l == vec_root:
+                        return l
+                    sd = bd.single_def(l)
+                    if sd is None:
+                        return None
+                    rv = sd[2]
+                    if hasattr(rv, "callee"):
+                        if not rv.args or op_place(rv.args[0]) is None:
+                            return None
+                        l = bd.root_local(rv.args[0])
+                    elif rv[0] in ("use", "ref") and isinstance(rv[-1] if rv[0] == "use" else rv[2], list):
+                        pl = rv[1] if rv[0] == "use" else rv[2]
+                        l = bd.root_local(pl) if rv[0] == "use" else bd.root_place(pl)[0]
+                    else:
+                        return None
+                return l
+            fold_ok = any(folded_root(t) == vec_root for _, t in folds)
+            chk.ob("C06-f", "build(): the folded vector is the one the table checksums were pushed onto", fold_ok,
+                   key=f"{bd.path}|sum-fold", file=bd.file, line=(folds[0][1].line if folds else ct.line), fn=bd.path,
+                   detail="the whole-file checksum is folded from a different collection than the one receiving the table checksums")
+    chk.floor("C06-f", "table-loop checksum obligations", n_f, 1)
+
+    # ---- C06-g -----------------------------------------------------------------------------------
+    chk.rule("C06-g", "T-MUST: on the head path (tag == head && len >= 12) every route to checksum_and_padding passes the store that "
+                      "clears bytes 8..12 of the table (whatever the Cow variant): the head checksum and the file sum are computed over "
+                      "a zeroed adjustment field")
+    zero_sites = []
+    for bb, t in bd.calls():
+        if t.callee.endswith("::copy_from_slice") or t.callee.endswith("::fill"):
+            s0 = show(bd, expr_of(bd, t.args[0])) if t.args else ""
+            if "8" in s0 and "12" in s0 and ("index_mut" in s0 or "Range" in s0):
+                zero_sites.append((bb, t))
+    chk.anchor("C06-g", "the store clearing head[8..12] in build()", zero_sites)
+    for cbb, ct in cps:
+        # the head guard: Tag == b"head" true edges that dominate a zeroing site
+        for zb, zt in zero_sites:
+            gs = [g for g in branch_guards(bd, zb)
+                  if g.cond[0] == "call" and g.cond[1].endswith("Tag as core::cmp::PartialEq>::eq") and g.taken_val != 0 and 'b"head"' in show(bd, g.cond)]
+            if not gs:
+                chk.ob("C06-g", f"build() line {zt.line}: the clearing store is under the head guard", False,
+                       key=f"{bd.path}|zero-guard", file=bd.file, line=zt.line, fn=bd.path)
+                continue
+            # innermost length guard as well: start from the block the zeroing is control dependent on last
+            lens = [g for g in branch_guards(bd, zb) if g.cond[0] == "bin" and g.cond[1] in ("Ge", "Gt") and g.taken_val != 0]
+            # the innermost of the guards (the one closest to the store in the dominator order)
+            cands = lens + gs
+            inner_g = max(cands, key=lambda g: len(bd.dominators().get(g.bb, ())))
+            start = inner_g.taken
+            # can checksum_and_padding be reached from `start` without passing the clearing store?
+            seen = set()
+            st = [start]
+            bypass = False
+            while st:
+                x = st.pop()
+                if x == zb or x in seen or bd.blocks[x].cleanup:
+                    continue
+                seen.add(x)
+                if x == cbb:
+                    bypass = True
+                    break
+                st.extend(bd.blocks[x].term.targets)
+            # ... and the checksum is taken after the store in the same trip: reachable from it without going round the loop
+            inner = [l for l in loops if cbb in l[2]]
+            hdr = min(inner, key=lambda l: len(l[2]))[0] if inner else None
+            seen2 = set()
+            st2 = list(bd.blocks[zb].term.targets)
+            after = False
+            while st2:
+                x = st2.pop()
+                if x in seen2 or x == hdr or bd.blocks[x].cleanup:
+                    continue
+                seen2.add(x)
+                if x == cbb:
+                    after = True
+                    break
+                st2.extend(bd.blocks[x].term.targets)
+            chk.ob("C06-g", f"build(): checksum_and_padding (line {ct.line}) follows the clearing store (line {zt.line}) within one trip",
+                   after, key=f"{bd.path}|zero-before-sum", file=bd.file, line=ct.line, fn=bd.path,
+                   detail="the table checksum is computed before the adjustment field is cleared: the head record checksum and the "
+                          "file sum include the supplied adjustment bytes")
+            chk.ob("C06-g", f"build(): from the head guard every path to checksum_and_padding (line {ct.line}) passes the clearing "
+                            f"store (line {zt.line})", not bypass, key=f"{bd.path}|zero-must", file=bd.file, line=zt.line, fn=bd.path,
+                   detail="there is a path on which the head table reaches checksum_and_padding with its checksumAdjustment bytes as "
+                          "supplied (e.g. a borrowed table is not cleared): the head record checksum and the file sum are then wrong")
+
+    # ---- C06-h -----------------------------------------------------------------------------------
+    chk.rule("C06-h", "T-ID: a table is stored under the tag it was supplied with: every insertion into FontBuilder.tables uses the "
+                      "function's own tag parameter as the key, and every internal add_raw call passes a tag that is a constant "
+                      "(T::TAG), a parameter, or the source record's tag() -- no function of it")
+    n_h = 0
+    for b in facts.all_bodies("write_fonts"):
+        if "font_builder::FontBuilder" not in b.path or b.generated:
+            continue
+        for bb, t in b.calls():
+            is_ins = (t.callee.endswith("BTreeMap::<K, V, A>::insert") or t.callee.endswith("HashMap::<K, V, S, A>::insert")) and \
+                len(t.args) >= 2 and ".tables" in show(b, expr_of(b, t.args[0]))
+            is_add = t.callee.endswith("FontBuilder::<'a>::add_raw") and len(t.args) >= 2
+            if not (is_ins or is_add):
+                continue
+            n_h += 1
+            e = strip_casts(expr_of(b, t.args[1]))
+            while e[0] == "proj" and all(x == "*" or (isinstance(x, tuple) and x and x[0] == "*") for x in e[2]):
+                e = e[1]
+            ok = e[0] in ("param", "const") or (e[0] == "call" and e[1].endswith("TableRecord::tag"))
+            chk.ob("C06-h", f"{b.path.split('::')[-1]} line {t.line}: key of {'insert' if is_ins else 'add_raw'} is `{show(b, e)[:60]}`", ok,
+                   key=f"{b.path}|tag-identity|{'insert' if is_ins else 'add_raw'}", file=b.file, line=t.line, fn=b.path,
+                   detail=f"the table is stored under `{show(b, e)[:120]}`, a value computed from the supplied tag: the font then lists a "
+                          f"different tag than the one given, and two distinct tags can collide")
+    chk.floor("C06-h", "insertions / internal add_raw calls", n_h, 3)
